@@ -155,8 +155,32 @@ func (c *Ctx) Roles() *Roles {
 				r.Release = fn
 			}
 		}
-		if rn == "" && fn.Parent() == nil && len(fn.Params) == 2 && len(c.calls(fn, pkgService, "", "writeMessageBuffer")) > 0 {
-			r.SockWrite = fn
+		// the direct socket writer of the handshake: a package-level function (closer, message) that encodes the
+		// message and writes the bytes to the connection, itself or through a package-level helper
+		if rn == "" && fn.Parent() == nil && len(fn.Params) == 2 && namedName(fn.Params[1].Type()) == "Message" {
+			writes := func(f *ssa.Function) bool {
+				for _, call := range ir.Calls(f) {
+					if cc := call.Common(); cc.IsInvoke() && cc.Method.Name() == "Write" && namedName(cc.Value.Type()) == "Conn" {
+						return true
+					}
+				}
+				return false
+			}
+			encodes := false
+			for _, call := range ir.Calls(fn) {
+				if cc := call.Common(); cc.IsInvoke() && cc.Method.Name() == "Encode" {
+					encodes = true
+				}
+			}
+			w := writes(fn)
+			for _, call := range ir.Calls(fn) {
+				if h := call.Common().StaticCallee(); h != nil && h.Pkg == fn.Pkg && h.Blocks != nil && h.Signature.Recv() == nil && writes(h) {
+					w = true
+				}
+			}
+			if encodes && w {
+				r.SockWrite = fn
+			}
 		}
 		if rn == "Server" && len(c.calls(fn, pkgAuth, "Manager", "Authenticate")) > 0 {
 			r.Accept = fn
